@@ -46,6 +46,13 @@ class Spec:
             return False
         return None
 
+    def impl_verdict(self, case, impl_obs):
+        """False when the implementation's observation alone shows the property failing
+        (panic, crash, self-check flag); None/True otherwise"""
+        if impl_obs.startswith(("PANIC", "CRASH")):
+            return False
+        return None
+
     def classify(self, case, impl_obs):
         """name of the known-finding class this failing case belongs to, or None"""
         return None
@@ -123,6 +130,9 @@ def run_spec(spec, tier, seed, replay=None):
                 if v is False and i not in failed:
                     failed.add(i)
                     oracle_fail.append(i)
+            for i, c in enumerate(cases):
+                if i not in failed and spec.impl_verdict(c, impl[i]) is False:
+                    failed.add(i); oracle_fail.append(i)
             stats["oracle_evaluations"] = len(olines)
             stats["oracle_inside_quantifier"] = n_in_quant
         # distribution
